@@ -4,6 +4,6 @@ set -u
 patch=$(realpath "$1"); re=$2; tier=${3:-quick}
 cd /repo || exit 2
 if [ -n "$(git status --porcelain)" ]; then echo "repo not clean"; exit 2; fi
-git apply "$patch" 2>/dev/null || git apply --3way "$patch" >/dev/null 2>&1 || { echo "patch does not apply"; exit 2; }
+git apply "$patch" 2>/dev/null || git apply --3way "$patch" >/dev/null 2>&1 || { git reset -q --hard HEAD; echo "patch does not apply"; exit 2; }
 cd /verif && bin/verif run "$re" -w 16 --tier "$tier" 2>&1 | cut -c1-400
 cd /repo && git reset -q --hard HEAD && git clean -fdq
